@@ -223,7 +223,8 @@ def prop_compose(case):
         for ds, d in case["spec"]["dataset"].items():
             _, gax, _, max_ = axes_of(case, ds)
             n = len(d["megacomplex"])
-            for pi in itertools.permutations(range(n)):
+            orders = itertools.permutations(range(n)) if n <= 4 else [tuple(range(n)), tuple(range(n))[::-1], tuple(range(1, n)) + (0,)]
+            for pi in orders:
                 spec = gen.apply_perm(case["spec"], {"ds_mc": {ds: list(pi)}})
                 with expect_ok("compose.build"):
                     model, params = build(spec, case["parameters"])
